@@ -172,29 +172,34 @@ func runTie(h []int) xplore.Out {
 	return out
 }
 
+// tieDescribe renders a tie item from the worlds THIS process built (coordinator and worker each do; xplore
+// compares the fingerprints).
+func tieDescribe(h []int) interface{} {
+	if tieCache == nil {
+		tieCache = tieWorlds()
+	}
+	if len(h) < 2 || h[1] >= len(tieCache) {
+		return "no such tie world"
+	}
+	tw := tieCache[h[1]]
+	return map[string]interface{}{"family": "equal-height-tie", "shape": tw.shape, "variant-tags": tw.tags, "order": tw.W.Describe(h[2:])}
+}
+
 func ties(run *ev.Run, spec *xplore.Spec, thorough bool) {
-	tws := tieWorlds()
+	if tieCache == nil {
+		tieCache = tieWorlds()
+	}
+	tws := tieCache
 	var items [][]int
-	desc := map[string]interface{}{}
 	shapes := map[string]int{}
 	for wi, tw := range tws {
 		shapes[tw.shape]++
 		parentFirst := !thorough || len(tw.W.Events) > 6
 		for _, o := range tieOrders(tw.W, parentFirst, 0) {
-			it := append([]int{tieMarker, wi}, o...)
-			items = append(items, it)
-			desc[fmt.Sprint(it)] = map[string]interface{}{"family": "equal-height-tie", "shape": tw.shape, "variant-tags": tw.tags, "order": tw.W.Describe(o)}
+			items = append(items, append([]int{tieMarker, wi}, o...))
 		}
-	}
-	old := spec.Describe
-	spec.Describe = func(h []int) interface{} {
-		if len(h) > 0 && h[0] == tieMarker {
-			return desc[fmt.Sprint(h)]
-		}
-		return old(h)
 	}
 	st := xplore.Flat(run, spec, items)
-	spec.Describe = old
 	var names []string
 	for s, n := range shapes {
 		names = append(names, fmt.Sprintf("%s:%d variants", s, n))
